@@ -268,7 +268,7 @@ def check_glob(ctx, tr, rng, k, j, mon, toks=None, fn=None):
     # (6) globmatch(REALPATH) applies the same rule to the path it is given
     segs_ = R.split_segments(toks)[1]
     nullable_seg = any(R.nullable(R.norm_seg(sg)) for sg in segs_ if not R.seg_is_gstar(sg, R.PathSpec(globstar=True, globstarlong=True)))
-    if not following and not nullable_seg:
+    if not nullable_seg:
         cands = [c for c in tr.candidates(5) if symlink_positions(root, c)]
         rng.shuffle(cands)
         cands = cands[:30]
@@ -363,18 +363,26 @@ def check_wcmatch(ctx, tr, rng, k, mon):
     """WcMatch without SYMLINKS never lists a symlinked directory and lists each real directory at most once."""
     root = tr.root
     real_dirs = 1 + sum(1 for e in tr.snap.values() if e['isdir'] and not e['link'])
-    for fl in (WM.RECURSIVE | WM.HIDDEN, WM.RECURSIVE, WM.RECURSIVE | WM.HIDDEN | WM.FILEPATHNAME | WM.GLOBSTAR | WM.MATCHBASE):
+    # the root itself may be reached through a symlink (it is named explicitly and entered): that changes nothing below it
+    link = os.path.join(os.path.dirname(root), 'root-through-link')
+    if not os.path.lexists(link):
+        os.symlink(os.path.basename(root), link)
+    for fi, fl in enumerate((WM.RECURSIVE | WM.HIDDEN, WM.RECURSIVE, WM.RECURSIVE | WM.HIDDEN | WM.FILEPATHNAME | WM.GLOBSTAR | WM.MATCHBASE,
+                             WM.RECURSIVE | WM.HIDDEN, WM.RECURSIVE | WM.HIDDEN)):
+        root_arg = root if fi < 3 else (link if fi == 3 else link + '/')
         mon.arm(budget=20 * real_dirs + 40)
         aborted = False
         try:
-            WM.WcMatch(root, rng.choice(['*', 'a*|b', '**/a']), flags=fl).match()
+            WM.WcMatch(root_arg if (fi < 3 or k % 2) else os.fsencode(root_arg), rng.choice(['*', 'a*|b', '**/a']) if fi < 3 else None, flags=fl).match()
         except BudgetExceeded:
             aborted = True
         events = mon.disarm()
-        listed = [lexical_rel(root, e_.rstrip('/')) for e_ in events]
+        listed = [lexical_rel(root_arg.rstrip('/'), e_.rstrip('/')) for e_ in events]
         ctx.evals()
         ctx.count('wcmatch_runs')
-        wit = {'tree': tr.spec, 'flags': fl}
+        if fi >= 3:
+            ctx.count('wcmatch_symlinked_root_runs')
+        wit = {'tree': tr.spec, 'flags': fl, 'root': 'real' if fi < 3 else 'a symlink to the root' + ('/' if fi == 4 else '')}
         if aborted or len(listed) > real_dirs:
             ctx.disagree('WcMatch without SYMLINKS lists more directories than the tree has (step bound)',
                          dict(wit, listings=len(listed), real_directories=real_dirs, aborted_by_hook=aborted))
